@@ -105,6 +105,18 @@ pub fn gen(seed: u64, tier: Tier, k: u64) -> Value {
             }
         }
     }
+    // one content far larger than a cluster (17 MiB: more than the whole compression queue of one or two workers may hold)
+    if seq % 5 == 4 {
+        let at = rng.usize_below(items.len().max(1));
+        items.insert(at, Item { len: 17 * 1024 * 1024 + 77, ent: Ent::Low4, hint: Hint::Yes, src: Src::Mem, dup_of: None, cat_of: None });
+        for it in items.iter_mut() {
+            if let Some(d) = it.dup_of.as_mut() {
+                if *d >= at {
+                    *d += 1;
+                }
+            }
+        }
+    }
     // some sequences end on clusters that are still open at finalize and hold nothing but empty contents
     if seq % 4 >= 2 {
         for _ in 0..rng.range(1, 4) {
